@@ -410,7 +410,15 @@ func init() {
 	cache = make(map[string][][]any)
 }
 
-func ExecReader(data any, selector string) (any, error) {
+func ExecReader(data any, selector string) (value any, err error) {
+	// the selector language has this entry point of its own: a failure while a
+	// selector is applied (an index or a slice bound outside the array) is
+	// reported to the caller, as New and Exec report theirs
+	defer func() {
+		if r := recover(); r != nil {
+			value, err = nil, recovered(r)
+		}
+	}()
 	mut.Lock()
 	allSelectors, ok := cache[selector]
 	if !ok {
